@@ -108,6 +108,13 @@ func (s CallableSignalSchema[StepData, InputType]) Call(ctx context.Context, ste
 		return InvalidInputError{err}
 	}
 
-	s.handler(ctx, stepData.(StepData), input.(InputType))
+	// When StepData is an interface type (e.g. any) and the step has no initializer, or the initializer returned
+	// nil, the step data arrives here as a nil interface. A type assertion on a nil interface panics, so the
+	// handler gets the zero value of StepData in that case, exactly as the step's own handler does.
+	var typedStepData StepData
+	if stepData != nil {
+		typedStepData = stepData.(StepData)
+	}
+	s.handler(ctx, typedStepData, input.(InputType))
 	return nil
 }
